@@ -23,6 +23,9 @@ Decided clause:
   R3.7 (E11 bit flow) the initial block counter is used at full width: in every crypto_stream function with a parameter `ic`
        (64-bit for the original ciphers, 32-bit for the IETF variants) each bit of that parameter reaches a call argument or a
        store - a narrowing on the way to the backend makes counters >= 2^32 alias small ones (keystream reuse).
+  R3.8 (E17) in the assembly stream backends every `rep stos` / `rep movs` sequence covers exactly the length register it is given:
+       one byte-wide operation with the full count, or a 2^k-wide one with count >> k plus a byte-wide one with count & (2^k - 1)
+       (the keystream form zeroes its output this way and then XORs the keystream in). Nothing else in the .S units is analysed.
   R3.6 batches are independent: in the multi-block loops of the SIMD backends no value that was produced
        by the rounds of one batch is carried into the next batch (a loop-carried value at the header of a
        batch loop may only be recomputed from itself, constants and other carried values: byte count,
@@ -149,6 +152,11 @@ def run(ctx, chk):
     # portable Salsa20 code: u += in[i]; in[i] = u; u >>= 8)
     batch_rule(prog, chk)
     counter_width_rule(ctx, prog, chk)
+    # R3.8: the one thing decided about the hand-written assembly backends: `rep stos` / `rep movs` sequences cover exactly the
+    # length register they are given (E17) - the keystream form of the xmm6 Salsa20 code zeroes the output and XORs into it
+    if prog.config == "native":
+        from .. import asmstr
+        asmstr.fill_rule(prog, chk, "R3.8", ("crypto_stream/",), floor=3)
     from .. import knownbits
     knownbits.dead_carry_rule(prog, chk, "R3.4", ("crypto_stream/",), floor=5)
     # R3.5: the byte-wise block counters of the portable Salsa20 family carry continuously (u += in[i]; in[i] = u; u >>= 8)
